@@ -273,13 +273,14 @@ func genFaultGrid(p func(string, ...any)) {
 	outcomes := []string{"T:-7:1", "F:-7:err", "F:-7:empty"}
 	vout := []string{"T:-7:1", "F:-7:err", "T:-7:2", "F:-7:ok"}
 	hd := "H(-;{i64:1=a:-7};-;{})"
-	// a signer that returns bytes together with its error (not through Countersign0, which is
-	// documented to return what the signer returns)
+	// a signer that returns bytes together with its error
 	for _, tag := range []string{"t", "u"} {
 		p("s1 %s S1(%s;00;-) - F:-7:errb F:-7:ok a", tag, hd)
 		p("s1h %s %s 00 - F:-7:errb", tag, hd)
 	}
 	p("cs full s1 p val:S1(%s;00;0102) %s - F:-7:errb F:-7:ok", hd, hd)
+	p("cs abbr s1 p val:S1(%s;00;0102) %s - F:-7:errb F:-7:ok", hd, hd)
+	p("cs abbr sig v val:cs(%s;0102) %s 01 F:-7:errb F:-7:ok", hd, hd)
 	p("he H(-;{};-;{}) -16 %s - - F:-7:errb F:-7:ok", strings.Repeat("00", 32))
 	for n := 1; n <= 3; n++ {
 		for pos := 0; pos < n; pos++ {
@@ -639,6 +640,12 @@ func genTbsGrid(p func(string, ...any)) {
 			if hasAlg && !big {
 				p("cs full s1 p hex:%s H(%s;{i64:1=a:-7};-;{}) - T:-7:1 T:-7:1", enc, hexs(prot.enc()))
 			}
+			if !hasAlg {
+				// a countersigner whose typed protected map is empty while its retained protected
+				// bytes are these (any spelling of h'' or of h'a0'): the retained bytes are signed
+				p("cs full s1 p hex:%s H(%s;{};-;{}) 01 T:-7:1 T:-7:1", enc, hexs(prot.enc()))
+				p("cs full sig v hex:%s H(%s;-;-;{}) 01 T:-7:1 T:-7:1", hexs(sgp.enc()), hexs(prot.enc()))
+			}
 		}
 	}
 }
@@ -718,6 +725,18 @@ func genEncGrid(p func(string, ...any)) {
 		p("enc uh %s", m)
 		p("s1 t S1(H(-;%s;-;%s);00;-) 01 T:-7:1 T:-7:1 a", m, m)
 		p("enc key K(1;-;-8;-;-;{i64:-1=c:6,i64:-2=b:%s,%s})", strings.Repeat("33", 32), strings.Join(parts, ","))
+	}
+	// EC2 keys whose coordinates were stripped of leading zero octets: the encoder pads them to the
+	// curve size (C14) without writing into the caller's slices (C18; the harness allocates every
+	// byte string with spare capacity)
+	for crv, size := range map[int]int{1: 32, 2: 48, 3: 66} {
+		for _, xl := range []int{size, size - 1, size - 2, 1} {
+			for _, yl := range []int{size, size - 1, 1} {
+				x, y := strings.Repeat("5a", xl), strings.Repeat("a5", yl)
+				p("enc key K(2;-;0;-;-;{i64:-1=c:%d,i64:-2=b:%s,i64:-3=b:%s})", crv, x, y)
+				p("enc key K(2;01;0;-;-;{i64:-1=c:%d,i64:-2=b:%s,i64:-3=b:%s,i64:-4=b:%s})", crv, x, y, strings.Repeat("77", xl))
+			}
+		}
 	}
 }
 
